@@ -198,6 +198,18 @@ def run(ck):
     # ---------------- R3 ----------------
     g = lib.single(prog, R + "Router::route")
 
+    def range_vars_over(fn, field):
+        """loop variables of range-for loops over this-><field>"""
+        rng = {d_["var"] for d_ in fn.events("decl") if d_.get("var", "").startswith("__range") and (d_.get("init") or {}).get("f") == field}
+        out_ = set()
+        for d_ in fn.events("decl"):
+            if not d_.get("var", "").startswith("__") and "__begin" in ((d_.get("init") or {}).get("t") or ""):
+                # `const auto& x = *__beginN` — pair it with the range of the same N
+                n_ = "".join(ch for ch in ((d_.get("init") or {}).get("t") or "") if ch.isdigit())
+                if any(r_.endswith(n_) for r_ in rng):
+                    out_.add(d_["var"])
+        return out_
+
     def terminal(ev):
         if ev["k"] != "call":
             return None
@@ -219,7 +231,9 @@ def run(ck):
             refs = t.get("refs") or []
             if "e:" + R + "Route::Result::Ok" in refs and t.get("cmp") == "==":
                 accept_edges.add((b.id, 0))
-            if (t.get("core") or {}).get("v") == "result" and t.get("neg") and not t.get("cmp"):
+            mwres = {d_["var"] for d_ in g.events("decl") if strip_tmpl(d_.get("icall") or "") == "std::function::operator()" and "bool" in (d_.get("type") or "") + "bool"
+                     and any(("v:" + rv_) in (d_.get("refs") or []) for rv_ in range_vars_over(g, R + "Router::middlewares"))}
+            if (t.get("core") or {}).get("v") in mwres and t.get("neg") and not t.get("cmp"):
                 stop_edges.add((b.id, 0))
     ck.require(accept_edges and stop_edges, "custom-handler accept / middleware stop branches not found in Router::route")
 
@@ -239,13 +253,15 @@ def run(ck):
     # 405 guarded by non-empty list
     na = [e for e in g.events("call") if terminal(e) == "405"]
     ck.require(na, "sendMethodNotAllowed not found")
-    tests = [b for b in g.blocks.values() if b.term and b.term.get("k") == "if" and (b.term.get("core") or {}).get("root") == "supportedMethods"
+    SM = na[0]["args"][0].get("v")
+    ck.require(SM, "sendMethodNotAllowed is not given a local list")
+    tests = [b for b in g.blocks.values() if b.term and b.term.get("k") == "if" and (b.term.get("core") or {}).get("root") == SM
              and "empty" in (b.term.get("cond") or "")]
     ok = bool(tests) and all(any(cfg.edge_dominates(g, b.id, 0 if b.term.get("neg") else 1, e) for b in tests) for e in na)
-    ck.ob("C10-R3", "route/405-needs-methods", ok and all((e["args"][0].get("v") == "supportedMethods") for e in na), na[0].loc, g,
+    ck.ob("C10-R3", "route/405-needs-methods", ok and all((e["args"][0].get("v") == SM) for e in na), na[0].loc, g,
           "sendMethodNotAllowed(supportedMethods) only on the !supportedMethods.empty() edge")
     # building the list: skip own method, push only when the other tree matches
-    pb_ = [e for e in g.calls(lambda e: e.base_callee() == "std::vector::push_back" and (e.get("recv") or {}).get("v") == "supportedMethods")]
+    pb_ = [e for e in g.calls(lambda e: e.base_callee() == "std::vector::push_back" and (e.get("recv") or {}).get("v") == SM)]
     ck.require(len(pb_) == 1, "supportedMethods.push_back sites: %d" % len(pb_))
     e = pb_[0]
     skip = [b for b in g.blocks.values() if b.term and b.term.get("k") == "if" and b.term.get("cmp") == "==" and "c:" + "Pistache::Http::Request::method" in (b.term.get("refs") or [])]
@@ -267,7 +283,8 @@ def run(ck):
         tree = [e for e in fn.calls(lambda e: (e.get("callee") or "") in (N + "addRoute", N + "removeRoute", N + "findRoute"))]
         ck.require(tree, "no tree operation in Router::%s" % name)
         sv = [x for x in fn.events("decl") if strip_tmpl(x.get("icall") or "") == N + "sanitizeResource"]
-        pathdecl = [x for x in fn.events("decl") if x.get("var") == "path"]
+        pv_ = tree[0]["args"][0].get("v")
+        pathdecl = [x for x in fn.events("decl") if x.get("var") == pv_]
         uses = bool(sv) and bool(pathdecl) and all(sv[0]["var"] in (((p.get("init") or {}).get("t") or "") + " ".join(p.get("refs") or [])) or "ptr" in ((p.get("init") or {}).get("t") or "") for p in pathdecl)
-        ok = len(san) == 1 and all(cfg.ev_dominates(d, san[0], t) for t in tree) and all((t["args"][0].get("v") == "path") for t in tree) and uses
+        ok = len(san) == 1 and all(cfg.ev_dominates(d, san[0], t) for t in tree) and all((t["args"][0].get("v") == pv_) for t in tree) and bool(pv_) and uses
         ck.ob("C10-R4", "sanitize:Router::" + name, ok, fn.loc, fn, "sanitizeResource dominates %d tree operation(s), which take the sanitized path" % len(tree))
